@@ -540,19 +540,21 @@ func checkGetInfo(e *Env, p *load.Program) {
 	for i, lk := range lks {
 		keyOK := true
 		kd := ""
-		var visit func(v ssa.Value, depth int)
-		visit = func(v ssa.Value, depth int) {
-			if depth > 4 {
+		// name is the parameter that holds the requested name in the function being looked at (GetInfo, or a helper of
+		// the package that GetInfo hands the name to and whose every result is again one of the three forms)
+		var visit func(v ssa.Value, name *ssa.Parameter, depth int)
+		visit = func(v ssa.Value, name *ssa.Parameter, depth int) {
+			if depth > 6 {
 				keyOK = false
 				return
 			}
 			switch x := v.(type) {
 			case *ssa.Phi:
 				for _, ed := range x.Edges {
-					visit(ed, depth+1)
+					visit(ed, name, depth+1)
 				}
 			case *ssa.Parameter:
-				if x != fn.Params[0] {
+				if x != name {
 					keyOK = false
 					kd = "key is another parameter"
 				}
@@ -562,16 +564,25 @@ func checkGetInfo(e *Env, p *load.Program) {
 					kd = "constant key is not runtime.GOARCH"
 				}
 			case *ssa.Call:
-				if !flow.CalleeIs(x, "strings", "ToLower") || len(x.Call.Args) != 1 || x.Call.Args[0] != ssa.Value(fn.Params[0]) {
-					keyOK = false
-					kd = "key is computed by " + calleeName(x) + ", not by strings.ToLower(name)"
+				if flow.CalleeIs(x, "strings", "ToLower") && len(x.Call.Args) == 1 && x.Call.Args[0] == ssa.Value(name) {
+					return
 				}
+				h := flow.Callee(x)
+				if h != nil && h.Pkg != nil && h.Pkg.Pkg.Path() == load.PkgArch && len(h.Blocks) > 0 && len(h.Params) == 1 && len(x.Call.Args) == 1 &&
+					x.Call.Args[0] == ssa.Value(name) && h.Signature.Results().Len() == 1 && h != fn {
+					for _, ret := range flow.Returns(h) {
+						visit(flow.RetResults(ret)[0], h.Params[0], depth+1)
+					}
+					return
+				}
+				keyOK = false
+				kd = "key is computed by " + calleeName(x) + ", not by strings.ToLower(name)"
 			default:
 				keyOK = false
 				kd = fmt.Sprintf("key comes from %T", v)
 			}
 		}
-		visit(lk.Index, 0)
+		visit(lk.Index, fn.Params[0], 0)
 		r.Check(keyOK, "E4.getinfo", fmt.Sprintf("GetInfo/key#%d", i), p.Pos(lk.Pos()), "lookup key is strings.ToLower(name), runtime.GOARCH or the name itself: any letter case resolves like its lower-case spelling",
 			"GetInfo: "+kd+": a name can resolve to another architecture's table than its lower-case spelling (aliases and letter cases no longer agree)")
 	}
